@@ -19,6 +19,7 @@
 // std
 #include <queue>
 #include <atomic>
+#include <mutex>
 
 // romea
 #include "romea_core_common/time/Time.hpp"
@@ -47,6 +48,7 @@ public:
   bool timeout(const Duration & duration);
 
 private:
+  mutable std::mutex mutex_;
   size_t windowSize_;
 
   Duration lastPeriod_;
